@@ -13,6 +13,8 @@ package pattern
 // Oracle: c09Ref, a purely functional matcher over the same inputs.
 
 import (
+	"go/parser"
+	"go/types"
 	"go/ast"
 	"go/token"
 )
@@ -105,6 +107,10 @@ const c09NTrees = 19
 // ---- structural equality of matched values ----
 
 func c09Eq(a, b any) bool {
+	if x, ok := a.(types.Object); ok {
+		y, ok := b.(types.Object)
+		return ok && x == y
+	}
 	// a list of exactly one element and that element alone are the same
 	// subtree (an argument list [x] recalled at a single-node position)
 	if xs, ok := a.([]ast.Expr); ok && len(xs) == 1 {
@@ -288,6 +294,28 @@ func c09Ref(p Node, n any, env c09Env) (c09Env, any, bool) {
 		}
 		e1, _, ok := c09Ref(p.Name, v.Name, env)
 		return e1, n, ok
+	case Builtin:
+		// an identifier that denotes the predeclared object of its name
+		v, ok := n.(*ast.Ident)
+		if !ok || v == nil || c09Info == nil {
+			return env, nil, false
+		}
+		e1, _, ok := c09Ref(p.Name, v.Name, env)
+		if !ok || c09Info.ObjectOf(v) != types.Universe.Lookup(v.Name) {
+			return env, nil, false
+		}
+		return e1, n, true
+	case Object:
+		// an identifier; the value is the object it denotes
+		v, ok := n.(*ast.Ident)
+		if !ok || v == nil || c09Info == nil {
+			return env, nil, false
+		}
+		e1, _, ok := c09Ref(p.Name, v.Name, env)
+		if !ok {
+			return env, nil, false
+		}
+		return e1, c09Info.ObjectOf(v), true
 	case BasicLit:
 		v, ok := n.(*ast.BasicLit)
 		if !ok || v == nil {
@@ -366,8 +394,12 @@ func c09Ref(p Node, n any, env c09Env) (c09Env, any, bool) {
 }
 
 // c09Check runs the real matcher and the reference on the same inputs.
+// c09Info is the type information of the tree being matched (typed harnesses only).
+var c09Info *types.Info
+
 func c09Check(label string, p Pattern, tree ast.Expr) {
-	m, ok := Match(p, tree)
+	m := &Matcher{TypesInfo: c09Info}
+	ok := m.Match(p, tree)
 	env, _, rok := c09Ref(p.Root, tree, c09Env{})
 	vobserve(label, ok)
 	vassert(ok == rok, label+": verdict differs from the reference matcher")
@@ -398,4 +430,54 @@ func c09Same(label string, p, q Pattern, tree ast.Expr) {
 			}
 		}
 	}
+}
+
+// ---- typed trees: call expressions of a small type-checked package ----
+
+const c09TypedSrc = `package p
+
+func helper(x int) int { return x }
+
+var other = helper
+
+func g(s []int, n int) {
+	_ = len(s)
+	_ = cap(s)
+	_ = helper(n)
+	_ = other(1)
+	_ = helper(len(s))
+	_ = len
+}
+
+func shadow(len func([]int) int, s []int) int { return len(s) }
+`
+
+// c09TypedTrees parses and type-checks the source (real go/parser and
+// go/types, in the engine) and returns its call expressions.
+func c09TypedTrees() []ast.Expr {
+	fset := token.NewFileSet()
+	f, err := parser.ParseFile(fset, "p.go", c09TypedSrc, 0)
+	vassert(err == nil, "harness: typed source parses")
+	info := &types.Info{
+		Types: map[ast.Expr]types.TypeAndValue{},
+		Defs:  map[*ast.Ident]types.Object{},
+		Uses:  map[*ast.Ident]types.Object{},
+	}
+	conf := types.Config{Error: func(error) {}}
+	conf.Check("example.com/p", fset, []*ast.File{f}, info)
+	c09Info = info
+	var out []ast.Expr
+	ast.Inspect(f, func(n ast.Node) bool {
+		if c, ok := n.(*ast.CallExpr); ok {
+			out = append(out, c)
+		}
+		return true
+	})
+	return out
+}
+
+func c09TypedCheck(label string, p Pattern) {
+	trees := c09TypedTrees()
+	c09Check(label, p, trees[vchoose(len(trees))])
+	c09Info = nil
 }
